@@ -203,23 +203,38 @@ theorem C18_roundtrip_in_context (cfg : ScanCfg S) (hop : ∀ c ∈ opChars, cfg
     ScansAs cfg (showExpr e) e.kinds (stop cfg) :=
   scansAs_showExpr cfg hop hblank e he
 
-/-- **C18 (units, on the shipped keyword table).** The printed symbol of every unit other than
-    the yard is a spelling that the shipped keyword table reads as that very unit … -/
-theorem C18_unit_symbols_read_back_partial : ∀ u : Unit, u ≠ .distance .yard →
+/-- **C18 (units, on the shipped keyword table).** Every unit that a token can carry — every unit
+    some spelling of the shipped keyword table denotes — prints a symbol that the table reads as
+    that very unit. -/
+theorem C18_unit_symbols_read_back :
+    ∀ p ∈ Gen.keywordTable, ∀ u : Unit, p.2 = .unit u →
+      C05.lookup (Gen.unitSymbol u) = some (.unit u) := by
+  have h : ∀ p ∈ Gen.keywordTable, ∀ u ∈ Unit.all, p.2 = .unit u →
+      C05.lookup (Gen.unitSymbol u) = some (.unit u) := by decide +kernel
+  exact fun p hp u => h p hp u (C05.unit_all_complete u)
+
+/-- … and so does every unit other than the yard and the mile. -/
+theorem C18_unit_symbols_read_back_partial : ∀ u : Unit, u ≠ .distance .yard → u ≠ .distance .mile →
     C05.lookup (Gen.unitSymbol u) = some (.unit u) := by
-  have h : ∀ u ∈ Unit.all, u ≠ .distance .yard → C05.lookup (Gen.unitSymbol u) = some (.unit u) := by
-    decide +kernel
+  have h : ∀ u ∈ Unit.all, u ≠ .distance .yard → u ≠ .distance .mile →
+      C05.lookup (Gen.unitSymbol u) = some (.unit u) := by decide +kernel
   exact fun u => h u (C05.unit_all_complete u)
 
-/- OPEN (false on the current tree — known finding K2):
-     theorem C18_unit_symbols_read_back : ∀ u, C05.lookup (Gen.unitSymbol u) = some (.unit u)
-   The hypothesis `WordLex cfg (unitSymbol u) (.unit u)` of `C18_roundtrip` therefore FAILS for
-   `u = yard` with the shipped table: a body that mentions yards is listed with the symbol `yd`,
-   which reads back as feet. -/
+/- OPEN (false on the current tree):
+     theorem C18_unit_symbols_read_back_all : ∀ u, C05.lookup (Gen.unitSymbol u) = some (.unit u)
+   The hypothesis `WordLex cfg (unitSymbol u) (.unit u)` of `C18_roundtrip` FAILS for the yard and
+   for the mile with the shipped table (next theorem).  No text can denote these two units (no
+   spelling of the table does — the yard's spellings denote the foot, known finding K2; the mile
+   has no spelling at all), so no parsed body contains them; a yard written `yd` is a foot in the
+   tree and is listed as `ft`. -/
 
-/-- … the negation at the witness: the yard's printed symbol reads back as the foot. -/
-theorem C18_yard_counterexample :
-    C05.lookup (Gen.unitSymbol (.distance .yard)) = some (.unit (.distance .foot)) := by
+/-- the negation at the witnesses: the yard's printed symbol reads back as the foot, the mile's
+    printed symbol is no keyword (it reads back as an identifier) — and no spelling of the shipped
+    table denotes either unit -/
+theorem C18_yard_mile_counterexample :
+    C05.lookup (Gen.unitSymbol (.distance .yard)) = some (.unit (.distance .foot)) ∧
+    C05.lookup (Gen.unitSymbol (.distance .mile)) = none ∧
+    ∀ p ∈ Gen.keywordTable, p.2 ≠ .unit (.distance .yard) ∧ p.2 ≠ .unit (.distance .mile) := by
   decide +kernel
 
 /-- the keywords the printer emits are in the shipped table -/
@@ -236,9 +251,11 @@ theorem C18_keywords_read_back :
 
 /-! ### the hypotheses are satisfiable -/
 
-/-- the shipped class table of `char::is_alphanumeric` contains none of the operator characters -/
+/-- the shipped class table of `char::is_alphanumeric` contains none of the operator characters,
+    nor the blank (hypotheses `hop`, `hblank`) -/
 example :
-    ∀ c ∈ opChars, (Gen.alnumRanges.toList.any fun r => r.1 ≤ c.toNat && c.toNat ≤ r.2) = false := by
+    ∀ c ∈ ' ' :: opChars,
+      (Gen.alnumRanges.toList.any fun r => r.1 ≤ c.toNat && c.toNat ≤ r.2) = false := by
   decide +kernel
 
 /-- `Expr.OpLexemes` holds of the tree of `-(a+2)!`, and its printed text is that -/
@@ -265,17 +282,16 @@ example : NumLit (S := S) "42".toList (Kernel.ofDecimal 42 0) :=
 example (cfg : ScanCfg S) (hop : ∀ c ∈ opChars, cfg.isAlnum c = false)
     (hblank : cfg.isAlnum ' ' = false) (ha : cfg.isAlnum 'a' = true) (hk : cfg.keyword ['a'] = none)
     (h2 : complexToString (Kernel.ofDecimal 2 0 : S) = ['2']) :
-    let minus : Tok S := ⟨.minus, ['-'], 1, 1⟩
-    let plus : Tok S := ⟨.plus, ['+'], 1, 4⟩
-    let bang : Tok S := ⟨.bang, ['!'], 1, 7⟩
-    let lp : Tok S := ⟨.lparen, ['('], 1, 2⟩
-    let a : Tok S := ⟨.ident ['a'], ['a'], 1, 3⟩
-    let e : Expr S := .unary minus (.unary bang (.grouping lp .grouping
-      (.binary (.ident a) plus (.number (Kernel.ofDecimal 2 0)))))
     ∃ toks, scan cfg "-(a+2)!".toList = .ok toks ∧
       toks.map (·.kind) =
         [.minus, .lparen, .ident ['a'], .plus, .number (Kernel.ofDecimal 2 0), .rparen, .bang] := by
-  intro minus plus bang lp a e
+  let minus : Tok S := ⟨.minus, ['-'], 1, 1⟩
+  let plus : Tok S := ⟨.plus, ['+'], 1, 4⟩
+  let bang : Tok S := ⟨.bang, ['!'], 1, 7⟩
+  let lp : Tok S := ⟨.lparen, ['('], 1, 2⟩
+  let a : Tok S := ⟨.ident ['a'], ['a'], 1, 3⟩
+  let e : Expr S := .unary minus (.unary bang (.grouping lp .grouping
+    (.binary (.ident a) plus (.number (Kernel.ofDecimal 2 0)))))
   have hOK : e.TreeOK cfg := by
     simp only [e, Expr.TreeOK]
     refine ⟨⟨'-', rfl, by decide, by simp [singleKind, minus]⟩, ⟨'!', rfl, by decide, by simp [singleKind, bang]⟩, ?_, ?_, ?_⟩
@@ -287,7 +303,7 @@ example (cfg : ScanCfg S) (hop : ∀ c ∈ opChars, cfg.isAlnum c = false)
     · rw [h2]
       exact numLit_digits ['2'] (by decide) (by decide)
   have hshow : showExpr e = "-(a+2)!".toList := by
-    simp [e, minus, plus, bang, showExpr, Tok.tag, Kind.tag, h2]
+    simp [e, minus, plus, bang, a, showExpr, Tok.tag, Kind.tag, h2]
   obtain ⟨toks, h1, h3⟩ := C18_roundtrip cfg hop hblank e hOK
   refine ⟨toks, hshow ▸ h1, ?_⟩
   rw [h3]
